@@ -624,6 +624,12 @@ def specs_fast_sir(tier):
                 for tw in (None, "w"):
                     out.append(dict(fn="fast_SIR", n=n, edges=es, I0=list(I0), R0=[], tau=0.3, gamma=0.7,
                                     tw=tw, rw=None, menu=menu[:2], full=True, tmin=tmin, tmax=tmax))
+    # self-loops
+    for (n, es) in ((3, [(0, 1), (1, 2), (1, 1), (0, 0)]), (3, [(0, 1), (1, 2), (0, 2), (2, 2)])):
+        for (tw, rw) in ((None, None), ("w", "rw")):
+            for I0 in gr.subsets(range(n), 1, 2):
+                for full in (True, False):
+                    out.append(dict(fn="fast_SIR", n=n, edges=es, I0=list(I0), R0=[], tau=0.3, gamma=0.7, tw=tw, rw=rw, menu=menu[:2], full=full))
     # rates and times passed as Python ints / numpy scalars
     for (n, es) in (gr.NAMED["K3"], gr.NAMED["P3"]):
         for (tw, rw) in ((None, None), ("w", "rw")):
